@@ -18,6 +18,7 @@ mod ops_pok;
 mod ops_registry;
 mod ops_revoc;
 mod ops_total;
+mod ops_venc;
 mod ops_tree;
 mod ops_wire;
 mod util;
@@ -37,6 +38,7 @@ fn dispatch(v: &Value) -> Value {
         "f_revoc" => ops_revoc::run(op, v),
         "f_registry" => ops_registry::run(op, v),
         "f_total" => ops_total::run(op, v),
+        "f_vencbytes" => ops_venc::run(v),
         "f_wire_issue" | "f_wire_pres" => ops_wire::run(op, v),
         o if o.starts_with("f_") => ops_flow::run(o, v),
         _ => json!({"r": "harness-error", "msg": format!("unknown op {op}")}),
